@@ -489,7 +489,7 @@ class Walk:
             params += " (acc : xtime)"
         if self.kind == "target":
             params = "(i : nat) " + params
-        out = [f"(* {self.name}, line {self.fn.lineno} *)",
+        out = [f"(* {self.name} *)",
                f"Fixpoint {self.coq}_from {params} {{struct chain}} : {res_t} :=",
                "  match chain with",
                f"  | [] => {nil_expr}",
@@ -542,7 +542,7 @@ def translate_parent_visible(fn) -> str:
 
     e = expr(body[0].value, False)
     return "\n".join([
-        f"(* {name}, line {fn.lineno} *)",
+        f"(* {name} *)",
         "Definition gen_parent_visible (chain : list scope_rec) : bool :=",
         "  match chain with",
         "  | [] => false (* not reachable: the chain starts with the scope itself *)",
